@@ -24,6 +24,9 @@ MC_Sets ==
    eDesc   |-> [keys |-> <<2, 1>>,    weights |-> <<1, 1>>,    threshold |-> 1,  nonce |-> 4],
    eZeroW  |-> [keys |-> <<1, 2>>,    weights |-> <<1, 0>>,    threshold |-> 1,  nonce |-> 4],
    eOvf    |-> [keys |-> <<1, 2>>,    weights |-> <<8, 8>>,    threshold |-> 1,  nonce |-> 4],
+   \* the sum passes u128::MAX at an addition that is not the last one
+   eOvfMid |-> [keys |-> <<1, 2, 3>>, weights |-> <<8, 8, 1>>, threshold |-> 1,  nonce |-> 4],
+   eOvfFst |-> [keys |-> <<1, 2, 3>>, weights |-> <<15, 1, 1>>, threshold |-> 2, nonce |-> 4],
    eThr0   |-> [keys |-> <<1, 2>>,    weights |-> <<1, 1>>,    threshold |-> 0,  nonce |-> 4],
    eThrGt  |-> [keys |-> <<1, 2>>,    weights |-> <<1, 1>>,    threshold |-> 3,  nonce |-> 4]]
 MC_Keys == [k1 |-> [chain |-> "c", id |-> "1"]]
@@ -53,7 +56,7 @@ RotActs(s) ==
 Lists ==
     {<<>>, <<"s0">>, <<"s0", "v1">>, <<"s0", "v1", "v2">>, <<"s0", "s0">>, <<"s0", "v1", "s0">>}
     \cup {<<e>> : e \in SetNames \ Valid}
-    \cup {<<"s0", e>> : e \in {"eDesc", "eOvf", "eThr0"}}
+    \cup {<<"s0", e>> : e \in {"eDesc", "eOvf", "eOvfMid", "eThr0"}}
     \cup {<<e, "s0">> : e \in {"eZero", "eZeroW", "eThrGt"}}
     \cup {<<"s0", "v1", e>> : e \in {"eEmpty", "eDup"}}
 
